@@ -94,6 +94,36 @@ func (ro *roles) isCreate(cal *types.Func) bool { return cal != nil && ro.creato
 
 var rolesCache *roles
 
+// lookupSite recognises `v, ok := <lookup>(key)` in any form: a call of the
+// getInstance / getSingleton helpers (or a pure delegation to them), a comma-ok
+// read of the cache map, a Load on the singleton table. It returns the table and
+// the key expression.
+func (ro *roles) lookupSite(w *World, info *types.Info, rhs ast.Expr) (*types.Var, ast.Expr) {
+	switch x := unparen(rhs).(type) {
+	case *ast.CallExpr:
+		cal := callee(info, x)
+		if cal == nil {
+			return nil, nil
+		}
+		if len(x.Args) == 1 {
+			if ro.getInstance != nil && cal == ro.getInstance.Obj {
+				return ro.cache, x.Args[0]
+			}
+			if ro.isGetSingleton(w, cal) {
+				return ro.singletons, x.Args[0]
+			}
+			if r, name, ok := methodCall(x); ok && name == "Load" && fieldOf(info, r) == ro.singletons {
+				return ro.singletons, x.Args[0]
+			}
+		}
+	case *ast.IndexExpr:
+		if fv := fieldOf(info, x.X); fv != nil && (fv == ro.cache || fv == ro.singletons) {
+			return fv, x.Index
+		}
+	}
+	return nil, nil
+}
+
 // isGetSingleton: the lookup in the singleton table, or a function that only delegates to it.
 func (ro *roles) isGetSingleton(w *World, cal *types.Func) bool {
 	if cal == nil || ro.getSingleton == nil {
@@ -380,7 +410,7 @@ func resolveRoles(w *World) *roles {
 		ro.doBuild = ro.allocProvider
 	}
 	for name, f := range map[string]*FuncInfo{"setInstance": ro.setInstance, "resolve": ro.resolve, "createInstance": ro.createInstance,
-		"setSingleton": ro.setSingleton, "getInstance": ro.getInstance, "getSingleton": ro.getSingleton, "scope initializer pass": ro.runInits,
+		"setSingleton": ro.setSingleton, "scope initializer pass": ro.runInits,
 		"scope allocation": ro.allocScope, "provider allocation (doBuild)": ro.doBuild, "eager singleton creation": ro.createAll} {
 		if f == nil {
 			undecidedf("role %q could not be resolved structurally", name)
@@ -405,6 +435,10 @@ func trackingEvents(w *World, ro *roles) *Events {
 			if r, _, ok := methodCall(call); ok && fieldOf(info, r) == ro.singletons && (cal.Name() == "Store" || cal.Name() == "LoadOrStore" || cal.Name() == "Swap") {
 				out = append(out, "store:singletons")
 			}
+			// the lookup written out at its call site (the one-line getSingleton inlined)
+			if r, _, ok := methodCall(call); ok && fieldOf(info, r) == ro.singletons && cal.Name() == "Load" {
+				out = append(out, "call:getSingleton")
+			}
 			if _, k, ok := isCloseCall(info, call); ok && k == "disposable" {
 				out = append(out, "dispclose")
 			}
@@ -417,7 +451,7 @@ func trackingEvents(w *World, ro *roles) *Events {
 			if cal == ro.setInstance.Obj {
 				out = append(out, "call:setInstance")
 			}
-			if cal == ro.getInstance.Obj {
+			if ro.getInstance != nil && cal == ro.getInstance.Obj {
 				out = append(out, "call:getInstance")
 			}
 			if ro.isGetSingleton(w, cal) {
@@ -455,6 +489,9 @@ func withStoreGens(ev *Events, w *World, ro *roles) *Events {
 				if ix, ok := unparen(rh).(*ast.IndexExpr); ok {
 					if fv := fieldOf(info, ix.X); fv != nil {
 						out = append(out, "read:"+ownerField(w, fv))
+						if fv == ro.singletons {
+							out = append(out, "call:getSingleton")
+						}
 					}
 				}
 			}
